@@ -375,6 +375,8 @@ def mem_estimate_gb(spec):
 
 
 def mem_budget_gb():
+    if os.environ.get("VERIF_MEM_BUDGET_GB"):
+        return float(os.environ["VERIF_MEM_BUDGET_GB"])
     try:
         for ln in open("/proc/meminfo"):
             if ln.startswith("MemTotal:"):
